@@ -105,12 +105,47 @@ prop(
 
 prop(
     "C06",
+    ready=False,
     level="other",
-    explanation="draft",
-    bounds="draft",
-    outside="draft",
-    level_text="draft",
-    level_note="draft",
-    technique="Kani/CBMC harnesses on the real receiver / reader code",
-    assumptions=[],
+    explanation=(
+        "Decided per stage, because parsing a whole datagram of arbitrary bytes is not tractable (C07). "
+        "(1) Dispatcher: well-formed datagrams [INFO_TS, HEARTBEAT] and [INFO_SRC, INFO_DST, PAD] with symbolic field values "
+        "go through the real parser, the real MessageReceiver (until exhaustion) and the real "
+        "DcpsDomainParticipant::handle_data of a freshly constructed participant: no panic, the interpreter state "
+        "(source prefix, timestamp) is the one the submessages carry, nothing is sent. "
+        "(2) Per-handler step on a real participant whose built-in publications reader has a matched writer proxy "
+        "(a datagram that claims to come from a discovered participant): GAP with symbolic gapStart / gapList.base - "
+        "termination within the unwinding bound and no panic when base - gapStart <= 8. "
+        "(3) Fragment arithmetic: RtpsStatefulReader::on_data_frag_submessage (push_data_frag, "
+        "reconstruct_data_from_frag, total_fragments_expected) for one DATA_FRAG with symbolic writerSN, "
+        "fragmentStartingNum, fragmentsInSubmessage <= 3, fragmentSize >= 1, dataSize: no overflow, no division by zero, at "
+        "most one sample delivered and only for the expected sequence number; SequenceNumberSet::set() on sets decoded "
+        "from arbitrary bytes. (4) Allocation bounds of the element readers are asserted under C07 (numbers of decoded "
+        "locators / parameters / set words bounded by the input length). "
+        "Seven datagram-reachable defects are recorded as known findings with __known/__rest splits: INFO_REPLY reaches "
+        "todo!() (KF-C06-1); the GAP handler loops gapList.base - gapStart times, up to 2^63 (KF-C06-2, hang); DATA_FRAG "
+        "with fragmentSize 0 divides by zero (KF-C06-3); SequenceNumberSet::set() overflows for a base near i64::MAX "
+        "(KF-C06-4); NACK_FRAG with numBits > 256 indexes out of bounds, FragmentNumberSet base overflow, zero-length "
+        "CDR string in discovery data (KF-C07-1..3)."),
+    bounds="datagrams of 28..64 bytes with concrete framing (submessage ids, flags, lengths) and symbolic values; one matched "
+           "writer proxy in its initial state; one submessage handled per obligation; unwind 5..70",
+    outside="arbitrary (not well-framed) datagram bytes through the whole parser (per-unit totality: C07); the HEARTBEAT, "
+            "ACKNACK, NACK_FRAG, HEARTBEAT_FRAG, DATA and DATA_FRAG handlers on a participant with matched *user* readers / "
+            "writers (not reached: each participant-level harness costs minutes and the protocol steps of these handlers "
+            "are the subject of C01/C05); sequences of datagrams and pre-states other than the initial one; liveness of "
+            "the API afterwards (follows from no panic / termination in the single worker; stated, not checked); discovery "
+            "payload decoding and type-object assignability (execute the XTypes deserializer / DynamicData, not tractable); "
+            "locator-to-socket-address conversion (needs the std UDP transport feature); total memory accounting",
+    level_text="Bounded symbolic execution of the real receive path for the stated datagram shapes; termination is decided "
+               "as 'no unwinding assertion fails' for the stated loop bounds. Not a proof for arbitrary datagrams.",
+    level_note="trusted: Kani/CBMC, the harness-side little-endian datagram writer (RTPS 2.x clause 9.4 offsets; that the real "
+               "encoder produces these layouts is C08), critical-section stubs; in c06_gap_range_loop__known the loop body "
+               "RtpsWriterProxy::irrelevant_change_set is replaced by a call counter",
+    technique="Kani/CBMC proof harnesses on DcpsDomainParticipant::handle_data, rtps::message_receiver, rtps::stateful_reader / writer_proxy",
+    assumptions=[
+        "critical_section::acquire/release stubbed (sequential schedules)",
+        "NOT trigger KF-C06-1..4 in the respective __rest obligations",
+    ],
+    timeout={"quick": 900, "thorough": 1800},
+    mem_gb=10,
 )
